@@ -24,6 +24,10 @@ This module closes the remaining gap by correspondence, on every run:
       the rules, Coq witnesses C01_split_deviations) are appended to ctx.findings, each replayed on the real reader
       (_reproduced) so that ctx.finish prints its KNOWN-FINDING line; generated files outside the predicate on which
       the real reader and the rules differ are attributed through the trigger predicates of harness/findings_Spec.py;
+  (e) C01_roundtrip (Properties/C01Roundtrip.v) on the real code: montepy.read_input + write_to_file on generated files
+      within its side conditions; the file and what was written are both read by the extracted rules and compared as
+      denotations; a changed title is a failure (or the known finding F-C01-spec-title-last-column), differences caused
+      by the object layer (outside the theorem's model) are classified and counted;
   (d) a sample of the extracted answers is re-evaluated inside Coq by vm_compute.
 
 A mismatch is shrunk and appended to ctx.broken_obligations.  Known, reported deviations of spec.py from the rules
@@ -52,7 +56,7 @@ import findings_Spec
 
 MODEL = "SpecWire"
 PROP_FILE = "Properties/C01Spec.v"
-PROP_FILES = [PROP_FILE, "Properties/SpecSem.v"]
+PROP_FILES = [PROP_FILE, "Properties/SpecSem.v", "Properties/C01Roundtrip.v"]
 CORPUS = os.path.join(vlib.VERIF, "corpus", "Spec")
 WIDTHS = (80, 128)
 
@@ -547,12 +551,43 @@ def _as_view(v):
     return (v[0], [list(x) for x in v[1]], v[2])
 
 
+def denotation(ans_cards):
+    """what a problem denotes (Proofs/RoundtripProofs.v: denotation) from a `cards` answer: the title without
+    trailing blanks, per block the cards as (tokens by rule S8, comment texts); always three blocks"""
+    d = parse_model_cards(ans_cards)
+    blocks = [[[[t for wd in ws for t in wd.replace("=", " ").upper().split(" ") if t], list(cs)] for ws, cs in blk]
+              for blk in d["blocks"]]
+    blocks = (blocks + [[], [], []])[:3]
+    return (None if d["title"] is None else d["title"].rstrip(" ")), blocks
+
+
+def real_roundtrip(text, w):
+    """montepy.read_input + write_to_file on the text -> the written text, or ('raises', class name)"""
+    try:
+        _, out = mp.roundtrip(text, version=lay_C11.VERS[w])
+        return out
+    except Exception as e:
+        return ("raises", type(e).__name__)
+
+
+def roundtrip_titles(text, w):
+    """(title by the rules of the file, title by the rules of what the real code writes for it)"""
+    out = real_roundtrip(text, w)
+    if not isinstance(out, str):
+        return None
+    a = ask(["cards %d %s" % (w, hx(text)), "cards %d %s" % (w, hx(out))])
+    return denotation(a[0])[0], denotation(a[1])[0]
+
+
 def replay_finding(entry):
     """replay the committed witness of a finding on the real reader and on the extracted rules:
     True when both read it as recorded (and so differ)"""
     with open(os.path.join(vlib.VERIF, entry["replay"])) as fh:
         case = json.load(fh)["case"]
     text, w = case["text"], case["width"]
+    if case.get("kind") == findings_Spec.KIND_RT:
+        t = roundtrip_titles(text, w)
+        return t is not None and t[0] == case["title_read"] and t[1] == case["title_written"] and t[0] != t[1]
     rv = real_view(text.encode("latin-1"), w)
     mv = model_view(ask(["cards %d %s" % (w, hx(text))])[0])
     return rv == _as_view(case["real_reader"]) and mv == _as_view(case["rules"]) and rv != mv
@@ -886,6 +921,69 @@ def run(ctx):
             # '&', a tab in the title, control characters, an unterminated last line ...): outside MCNP's format
             # or outside what the rules cover; counted, not judged
             res["nonwf_differ_outside_format"] += 1
+
+    # (e) the end-to-end statement C01_roundtrip on the real code: read_input + write_to_file on generated files that
+    # meet its side conditions (wf_file, no message block, title within w - 1 columns); both files are read by the
+    # extracted rules.  The object layer between reading and writing is not in the theorem's model (hypothesis
+    # Lossless): differences it causes are classified and counted; only a changed title is judged here (the C01
+    # check's own oracle judges the rest)
+    rt = {"checked": 0, "same_denotation": 0, "raises": 0, "data_card_order": 0, "cell_token_order": 0,
+          "other_object_layer": 0, "title_beyond_w_minus_1": 0}
+    n_rt = 1500 if thorough else 120
+    cand = []
+    for text, w, a_cards, kind in wf_cases:
+        if kind.split(":")[0] == "soup":
+            continue
+        pl = spec.physical_lines(text, w)
+        if not pl or pl[0].upper().startswith("MESSAGE:"):
+            continue
+        cand.append((text, w, a_cards, len(pl[0].rstrip(" ")) <= w - 1))
+    # a few files whose title reaches the last column (the finding F-C01-spec-title-last-column)
+    for j, (text, w, a_cards, fit) in enumerate(list(cand[:8])):
+        lines = text.split("\n")
+        tl0 = lines[0].rstrip("\r")
+        if "\t" not in tl0 and len(tl0) < w:
+            lines[0] = tl0 + "." * (w - len(tl0)) + ("\r" if lines[0].endswith("\r") else "")
+            t2 = "\n".join(lines)
+            cand.append((t2, w, ask(["cards %d %s" % (w, hx(t2))])[0], False))
+    for text, w, a_cards, fit in cand[:n_rt] + cand[-8:]:
+        out = real_roundtrip(text, w)
+        rt["checked"] += 1
+        if not isinstance(out, str):
+            rt["raises"] += 1
+            continue
+        A = denotation(a_cards)
+        B = denotation(ask(["cards %d %s" % (w, hx(out))])[0])
+        if A[0] != B[0]:
+            case = {"kind": findings_Spec.KIND_RT, "width": w, "text": text, "title_read": A[0], "title_written": B[0]}
+            ids = attribute(case, entries)
+            if ids and not fit:
+                rt["title_beyond_w_minus_1"] += 1
+                for fid in ids:
+                    if hasattr(ctx, "filtered"):
+                        ctx.filtered[fid] = ctx.filtered.get(fid, 0) + 1
+            else:
+                broken("C01_roundtrip instance: the real round trip changes the title",
+                       {"width": w, "title read": A[0], "title written": B[0], "file": text[:600]})
+            continue
+        if A == B:
+            rt["same_denotation"] += 1
+            continue
+        kinds = set()
+        for bi, (x, y) in enumerate(zip(A[1], B[1])):
+            if x == y:
+                continue
+            if bi == 2 and sorted(t for c in x for t in c[0]) == sorted(t for c in y for t in c[0]) \
+                    and sorted(map(str, [c[0] for c in x])) == sorted(map(str, [c[0] for c in y])):
+                kinds.add("data_card_order")          # known finding F-C01-data-card-order (MT / IMP / VOL cards move)
+            elif bi == 0 and len(x) == len(y) and all(sorted(c[0]) == sorted(d[0]) for c, d in zip(x, y)) \
+                    and [c[1] for c in x] == [c[1] for c in y]:
+                kinds.add("cell_token_order")         # the parameters of a cell card are written in MontePy's order
+            else:
+                kinds.add("other_object_layer")
+        for k in kinds:
+            rt[k] += 1
+    res["roundtrip_real"] = rt
 
     # (d) vm_compute cross-check -----------------------------------------------------------------------------
     allq = reqs + treqs + nreqs + greqs + sreqs + screqs
